@@ -30,6 +30,9 @@ EXTENDS ExprAbs
 \*   "NoInfixGrouping":   inner infix nodes are printed without parentheses
 \*   "PrefixBindsLoose":  the parser applies a prefix minus to the whole following infix chain of higher
 \*        precedence instead of to the atom
+\*   "KeywordBeforeBrackets": parse_expression_identifier looks at the case-folded identifier first
+\*        (cis/cos/exp/i/pi/sin/sqrt) and tries `name[index]` only in the fallback, so a memory region named
+\*        like a function or constant (exp[1], Sin[0], pi[0]) no longer parses
 CONSTANT Deviations
 
 ----------------------------------------------------------------------------
@@ -142,15 +145,25 @@ Grouped(ts, p) ==
   ELSE IF Tok(ts, r.p).c # "rp" THEN Err
   ELSE Ok(r.e, r.p + 1)
 
-\* parse_expression_identifier
+\* `ident.to_lowercase()` on the identifiers of the alphabets (everything else is already lower case)
+Lower == "Sin" :> "sin" @@ "SIN" :> "sin" @@ "Cos" :> "cos" @@ "EXP" :> "exp" @@ "Exp" :> "exp" @@ "Sqrt" :> "sqrt"
+      @@ "PI" :> "pi" @@ "Pi" :> "pi" @@ "I" :> "i"
+Fold(s) == IF s \in DOMAIN Lower THEN Lower[s] ELSE s
+
+\* parse_expression_identifier.  By order of precedence: 1. memory reference with brackets, 2. function
+\* and constant identifiers (case-insensitive), 3. anything else is a memory reference without brackets
 ExprIdentifier(ts, p) ==
-  LET k == Tok(ts, p) IN
-  IF Tok(ts, p + 1).c = "lb" /\ Tok(ts, p + 2).c = "int" /\ Tok(ts, p + 3).c = "rb"
-  THEN Ok(Addr(k.s, IndexOf[Tok(ts, p + 2).s]), p + 4)     \* parse_memory_reference_with_brackets
-  ELSE CASE k.s \in Functions -> FunctionCall(ts, p + 1, k.s)
-         [] k.s = "i"  -> Ok(Num("0", "1"), p + 1)
-         [] k.s = "pi" -> Ok(PiC, p + 1)
-         [] OTHER      -> Ok(Addr(k.s, 0), p + 1)
+  LET k == Tok(ts, p)
+      kw == Fold(k.s)
+      brackets == Tok(ts, p + 1).c = "lb" /\ Tok(ts, p + 2).c = "int" /\ Tok(ts, p + 3).c = "rb"
+      asMemRef == Ok(Addr(k.s, IndexOf[Tok(ts, p + 2).s]), p + 4)    \* parse_memory_reference_with_brackets
+      asKeyword == CASE kw \in Functions -> FunctionCall(ts, p + 1, kw)
+                     [] kw = "i"  -> Ok(Num("0", "1"), p + 1)
+                     [] kw = "pi" -> Ok(PiC, p + 1)
+                     [] OTHER     -> Ok(Addr(k.s, 0), p + 1)
+  IN IF "KeywordBeforeBrackets" \in Deviations
+     THEN (IF kw \in Functions \cup {"i", "pi"} THEN asKeyword ELSE IF brackets THEN asMemRef ELSE asKeyword)
+     ELSE (IF brackets THEN asMemRef ELSE asKeyword)
 
 \* parse
 Parse(ts, p, prec) ==
@@ -202,9 +215,14 @@ FromStr == /\ phase = "printed" /\ result' = ParseAll(Lex(pieces)) /\ phase' = "
 \* The property (C03) on (tree, re-parsed tree), independent of printer and parser:
 \* the text parses, and the parsed expression has the same value under every assignment.
 
-Env(x, y, th, m, n, ro) == [vars |-> [x |-> x, y |-> y, theta |-> th], mem |-> [m |-> m, n |-> n, ro |-> ro]]
-Envs == { Env(123, 777, 58, <<901, 333>>, <<12, 640>>, <<5, 77, 402>>),
-          Env(58, 901, 222, <<17, 808>>, <<499, 3>>, <<1000, 250, 61>>) }
+\* two generic assignments of every variable and memory region of the alphabets (distinct names get
+\* distinct values, so a mix-up of names is seen)
+NameList == << "x", "y", "theta", "m", "n", "ro", "sin", "Sin", "SIN", "cos", "Cos", "cis", "exp", "EXP", "Exp", "sqrt",
+               "Sqrt", "pi", "PI", "Pi", "i", "I" >>
+NameIdx(s) == CHOOSE k \in DOMAIN NameList : NameList[k] = s
+MkEnv(a, b) == [vars |-> [v \in Range(NameList) |-> (a + 37 * NameIdx(v)) % P],
+                mem  |-> [r \in Range(NameList) |-> [c \in 1..4 |-> (b + 11 * NameIdx(r) + 301 * c) % P]]]
+Envs == { MkEnv(123, 901), MkEnv(58, 17) }
 
 SameValue(a, b) == \A env \in Envs : Eval(a, env.vars, env.mem) = Eval(b, env.vars, env.mem)
 
